@@ -32,6 +32,26 @@ Definition ckind_eqb (a b:ckind) : bool :=
   | _, _ => false
   end.
 
+(* ---- SPARQL-based constraints: query evaluation is outside the model; a constraint carries the
+        solutions of its query for each focus node (value node), obtained by running the declared
+        query directly through rdflib with the prescribed pre-bindings ---- *)
+Record sol := {
+  sol_failure : bool;           (* ?failure is bound *)
+  sol_this : option term;
+  sol_path : option term;
+  sol_value : option term;
+  sol_rest : N;                 (* identity of the remaining bindings of the row *)
+  sol_msgs : list term          (* the declared sh:message templates instantiated with THIS row's bindings *)
+}.
+Record sconstraint := {
+  sc_deact : bool;
+  sc_sols : list (term * list sol)     (* focus node -> rows *)
+}.
+Inductive cvalidator :=
+| VAsk (answers : list (term * term * bool * list term))   (* (focus, value) -> askAnswer, bound messages *)
+| VSelect (rows : list (term * term * list sol)).          (* (focus, value) -> rows *)
+Record custom := { cc_node : N; cc_val : cvalidator }.
+
 (* one constraint component instance per component class per shape; shape
    references are terms looked up in the environment *)
 Inductive comp :=
@@ -43,12 +63,14 @@ Inductive comp :=
 | CNode (refs:list term)
 | CProperty (refs:list term)
 | CQualified (refs:list term) (qmin qmax:option Z) (disjoint:bool)
-| CClosed (closed:bool) (ignored:list term).
+| CClosed (closed:bool) (ignored:list term)
+| CSparql (cs:list sconstraint)
+| CCustom (cc:custom).
 
 Definition comp_kind (c:comp) : ckind :=
   match c with
   | CLeaf _ => KLeaf | CNot _ => KNot | CAnd _ => KAnd | COr _ => KOr | CXone _ => KXone
-  | CNode _ => KNode | CProperty _ => KProperty | CQualified _ _ _ _ => KQualified | CClosed _ _ => KLeaf
+  | CNode _ => KNode | CProperty _ => KProperty | CQualified _ _ _ _ => KQualified | CClosed _ _ => KLeaf | CSparql _ => KLeaf | CCustom _ => KLeaf
   end.
 
 Record targets := {
